@@ -69,8 +69,15 @@ const arr_real& HilbertFilter::impz() const {
 
 arr_cmplx hilbert(const arr_real& x) {
     const int n = x.size();
-    arr_cmplx r = fft(x) * 2;
-    r.slice(n / 2 + 1, n) = 0;
+    //analytic signal: keep DC (and Nyquist for even n), double the positive frequencies, drop the negative ones
+    arr_cmplx r = fft(x);
+    const int npos = (n + 1) / 2;   //first bin that is not a strictly positive frequency (Nyquist or negative)
+    for (int i = 1; i < npos; ++i) {
+        r[i] = r[i] * 2;
+    }
+    if (n / 2 + 1 < n) {
+        r.slice(n / 2 + 1, n) = 0;
+    }
     r = ifft(r);
     return r;
 }
